@@ -301,6 +301,8 @@ def run_base_capa(
     # Used to get the final set of anomalies after the loop.
     opt_anomaly_starts = np.repeat(np.nan, n)
     starts = np.array([], dtype=int)
+    # Time index from which each admissible start can be dropped.
+    drop_from = np.array([], dtype=int)
 
     ts = np.arange(n)
     for t in ts:
@@ -310,7 +312,11 @@ def run_base_capa(
 
         # Collective anomalies
         if collective_possible:
+            keep = drop_from > t
+            starts = starts[keep]
+            drop_from = drop_from[keep]
             starts = np.concatenate((starts, t_array - min_segment_length + 1))
+            drop_from = np.concatenate((drop_from, np.array([n])))
             ends = np.repeat(t + 1, len(starts))
             collective_savings = collective_saving.evaluate(
                 np.column_stack((starts, ends))
@@ -344,9 +350,16 @@ def run_base_capa(
         if collective_possible:
             penalty_sum = collective_alpha + collective_betas.sum()
             saving_too_low = candidate_savings + penalty_sum < opt_savings[t + 1]
+            # A start with too low saving is only dominated for anomaly ends at least
+            # min_segment_length later, so it is dropped with that delay.
+            drop_from = np.where(
+                saving_too_low,
+                np.minimum(drop_from, t + min_segment_length),
+                drop_from,
+            )
             too_long_segment = starts < t - max_segment_length + 2
-            prune = saving_too_low | too_long_segment
-            starts = starts[~prune]
+            starts = starts[~too_long_segment]
+            drop_from = drop_from[~too_long_segment]
 
     collective_anomalies, point_anomalies = get_anomalies(opt_anomaly_starts)
     return opt_savings[1:], collective_anomalies, point_anomalies
